@@ -188,6 +188,26 @@ theorem callbacks_well_ordered_partial (c : Cfg) (ops : List Op)
   rw [this]
   exact agree_lstateOf _
 
+/-- `force_disconnect` reports `closed` in every state but `connecting` — in particular in the
+    transient states `connection_changed` (a connection update was applied, no event with the new
+    parameters yet) and `disconnecting`; `attempt_timeout` is reported in state `connecting` only -/
+theorem force_disconnect_reports_closed (s : State) (hl : s.ring.length < 4) :
+    (s.phase ≠ .connecting → (forceDisconnect s).ring = s.ring ++ [.closed s.reason])
+    ∧ (s.phase = .connecting → (forceDisconnect s).ring = s.ring ++ [.attemptTimeout]) := by
+  constructor <;> intro h <;> simp [forceDisconnect, resetEncryption, push, hl, h]
+
+set_option maxRecDepth 20000 in
+/-- non-vacuity of `callbacks_well_ordered_partial` in the transient state: LL_CONNECTION_UPDATE_IND
+    (interval 20 ms, timeout 100 ms, instant 4) is applied at its instant (`changed`, state
+    `connection_changed`), then every event is lost: the supervision timeout is reported as
+    `closed(0x08)`; no event was refused and `disconnect()` was not used -/
+example :
+    let r := run (init ⟨false, false⟩) ([.connect 24 72, .ev [],
+      .ev [ctrl [LL_CONNECTION_UPDATE_IND, 1, 0, 0, 16, 0, 0, 0, 10, 0, 4, 0]], .ev [], .ev []]
+      ++ List.replicate 5 .timeout)
+    trace r.2 = [.requested, .established, .changed, .closed 0x08]
+    ∧ r.1.dropped = 0 ∧ r.1.early = false ∧ r.1.phase = .advertising := by decide
+
 /-- the second excluded situation is a real violation as well: `disconnect()` right after
     `requested`: the connection is reported `closed` without ever having been `established` -/
 theorem early_disconnect_witness :
